@@ -66,7 +66,176 @@ Proof.
   - apply nth_error_None in E. lia.
 Qed.
 
+(* ---------- the exact list view of one field of one chunk ---------- *)
+
+Lemma flat_lists_gen : forall (sv lv : list bool) (cs : list (list val)),
+  forallb2 (fun (s l : bool) => implb s l) sv lv = true -> length cs = length sv ->
+  map2 (fun c (v : bool) => if v then Some c else None) cs (map2 andb sv lv)
+  = with_missing sv (mask_rows sv (map (@olist val) (map2 (fun c (v : bool) => if v then Some c else None) cs lv))).
+Proof.
+  induction sv as [|s sv IH]; intros [|l lv] [|c cs] H1 H2; cbn [forallb2 length] in *; try discriminate; try reflexivity.
+  apply andb_true_iff in H1 as [H1a H1]. injection H2 as H2.
+  unfold with_missing, mask_rows in *. rewrite !map2_cons. cbn [map]. rewrite !map2_cons. f_equal.
+  - destruct s, l; try reflexivity. discriminate.
+  - apply IH; assumption.
+Qed.
+
+Lemma length_mask_lists : forall (sv lv : list bool) (cs : list (list val)),
+  length lv = length sv -> length cs = length sv ->
+  length (mask_rows sv (map (@olist val) (map2 (fun c (v : bool) => if v then Some c else None) cs lv))) = length sv.
+Proof.
+  intros sv lv cs H1 H2. unfold mask_rows. rewrite map2_length; [reflexivity|].
+  rewrite map_length, map2_length; lia.
+Qed.
+
+(* reading a null list as [] undoes with_missing on a masked column *)
+Lemma olist_with_missing_gen : forall (sv : list bool) (xs : list (list val)),
+  map (@olist val) (with_missing sv (mask_rows sv xs)) = mask_rows sv xs.
+Proof.
+  unfold with_missing, mask_rows.
+  induction sv as [|s sv IH]; intros [|x xs]; try reflexivity.
+  rewrite !map2_cons. cbn [map]. rewrite IH. f_equal. destruct s; reflexivity.
+Qed.
+
+Lemma map2_app {A B C} (f : A -> B -> C) : forall l1 m1 l2 m2, length l1 = length m1 ->
+  map2 f (l1 ++ l2) (m1 ++ m2) = map2 f l1 m1 ++ map2 f l2 m2.
+Proof.
+  induction l1 as [|x l1 IH]; intros [|y m1] l2 m2 H; cbn [length] in H; try discriminate; [reflexivity|].
+  cbn [app]. rewrite !map2_cons. cbn [app]. f_equal. apply IH. lia.
+Qed.
+
+Lemma map2_concat {A B C X} (f : A -> B -> C) (g : X -> list A) (h : X -> list B) : forall l,
+  (forall x, In x l -> length (g x) = length (h x)) ->
+  map2 f (concat (map g l)) (concat (map h l)) = concat (map (fun x => map2 f (g x) (h x)) l).
+Proof.
+  induction l as [|x l IH]; intro H; [reflexivity|].
+  cbn [map concat]. rewrite map2_app by (apply H; left; reflexivity).
+  f_equal. apply IH. intros y Hy. apply H. right. exact Hy.
+Qed.
+
+Lemma find_map_key {A} (g : A -> A) (key : A -> string) nm : (forall x, key (g x) = key x) -> forall l,
+  find (fun y => String.eqb (key y) nm) (map g l) = option_map g (find (fun y => String.eqb (key y) nm) l).
+Proof.
+  intros Hk. induction l as [|x l IH]; [reflexivity|].
+  cbn [map find]. rewrite Hk. destruct (String.eqb (key x) nm); [reflexivity|exact IH].
+Qed.
+
+Definition wfl_chunk (sch : schema) (c : schunk) : Prop :=
+  wf_chunk_b sch c = true /\ lists_valid_b c = true.
+
+Lemma chunk_flat_lists sch c k nt : wfl_chunk sch c -> NoDup (map fst sch) -> nth_error sch k = Some nt ->
+  match find (fun f => String.eqb (fname f) (fst nt)) (sc_flatten c) with
+  | Some f => la_lists (farr f) | None => [] end
+  = with_missing (svalid c) (nth k (chunk_cols c) [])
+  /\ length (nth k (chunk_cols c) []) = length (svalid c)
+  /\ map (@olist val) (with_missing (svalid c) (nth k (chunk_cols c) [])) = nth k (chunk_cols c) [].
+Proof.
+  intros (Hwf & Hlv) Hnd Hk.
+  destruct (chunk_field_lookup sch c k nt Hwf Hnd Hk) as (f & Hf & Hn & Hcol).
+  assert (Hin : In f (sfields c)) by (eapply nth_error_In; eauto).
+  unfold wf_chunk_b in Hwf. apply andb_true_iff in Hwf as [_ Hwf].
+  rewrite forallb_forall in Hwf. specialize (Hwf f Hin).
+  apply wf_larr_b_spec in Hwf as (Ho & Hv & Hm & Hl). unfold sc_len in *.
+  unfold lists_valid_b in Hlv. rewrite forallb_forall in Hlv. specialize (Hlv f Hin).
+  assert (Hc : length (cuts (offs (farr f)) (child (farr f))) = length (svalid c))
+    by (rewrite length_cuts, Ho; lia).
+  rewrite Hcol. unfold field_rows. split; [|split].
+  - unfold sc_flatten.
+    rewrite (find_map_key _ fname (fst nt)) by reflexivity.
+    unfold sc_field in Hf. rewrite Hf. cbn [option_map farr]. unfold la_lists at 1. cbn [offs lvalid child].
+    apply flat_lists_gen; assumption.
+  - unfold la_lists. apply length_mask_lists; assumption.
+  - apply olist_with_missing_gen.
+Qed.
+
+Lemma wf_b_chunks p : wf_b p = true -> ctype p <> [] /\ forall c, In c (chunks p) -> wfl_chunk (ctype p) c.
+Proof.
+  unfold wf_b. intro H. apply andb_true_iff in H as [H1 H2]. split.
+  - destruct (ctype p); [discriminate|congruence].
+  - intros c Hc. rewrite forallb_forall in H2. specialize (H2 c Hc).
+    apply andb_true_iff in H2 as [H2 H3]. apply andb_true_iff in H2 as [H2 _]. split; assumption.
+Qed.
+
+(* with_missing distributes over the chunks *)
+Lemma with_missing_col p k nt : wf_b p = true -> NoDup (map fst (ctype p)) -> nth_error (ctype p) k = Some nt ->
+  with_missing (lvalidity (abs p)) (nth k (lcols (abs p)) [])
+  = concat (map (fun c => with_missing (svalid c) (nth k (chunk_cols c) [])) (chunks p)).
+Proof.
+  intros Hwf Hnd Hk. destruct (wf_b_chunks p Hwf) as (_ & Hall).
+  rewrite (abs_col_k p k (nth_error_lt _ _ _ Hk)). unfold abs. cbn [lvalidity].
+  unfold with_missing. apply map2_concat. intros c Hc.
+  destruct (chunk_flat_lists (ctype p) c k nt (Hall c Hc) Hnd Hk) as (_ & Hlen & _). symmetry. exact Hlen.
+Qed.
+
+(* per field: the list view with the validity of the struct applied, chunk by chunk = the field of the logical column
+   with the missing rows marked *)
+Lemma lists_col_exact p k nt : wf_b p = true -> NoDup (map fst (ctype p)) -> nth_error (ctype p) k = Some nt ->
+  concat (map (fun c => match find (fun f => String.eqb (fname f) (fst nt)) (sc_flatten c) with
+                        | Some f => la_lists (farr f) | None => [] end) (chunks p))
+  = with_missing (lvalidity (abs p)) (nth k (lcols (abs p)) []).
+Proof.
+  intros Hwf Hnd Hk. destruct (wf_b_chunks p Hwf) as (_ & Hall).
+  rewrite (with_missing_col p k nt Hwf Hnd Hk). f_equal.
+  apply map_ext_in. intros c Hc.
+  destruct (chunk_flat_lists (ctype p) c k nt (Hall c Hc) Hnd Hk) as (H & _). exact H.
+Qed.
+
 (* ---------- the theorems ---------- *)
+
+
+(* NEW (m_to_lists now applies the validity of the struct): the list view EXACTLY - a missing row is a null list, a
+   present row holds its list - from well-formedness alone (wf_b: no assumption on what the children of a missing row
+   hold, so this covers the hidden-children layout too) *)
+Theorem to_lists_fields_exact p fields : wf_b p = true -> chunks p <> [] -> NoDup (map fst (ctype p)) -> fields <> [] ->
+  forallb (has_name (map fst (ctype p))) fields = true ->
+  m_to_lists p fields = Ok (spec_lists_opt_fields (abs p) fields).
+Proof.
+  intros Hwf Hch Hnd Hne Hhas.
+  unfold m_to_lists. rewrite (field_names_ok p Hch).
+  destruct (length fields =? 0) eqn:El.
+  { apply Nat.eqb_eq in El. destruct fields; [congruence|discriminate]. }
+  rewrite Hhas. cbn [negb]. f_equal.
+  unfold spec_lists_opt_fields, spec_lists_fields. change (lsch (abs p)) with (ctype p). rewrite map_map.
+  rewrite forallb_forall in Hhas.
+  apply map_ext_in. intros nm Hin.
+  destruct (has_name_pos (ctype p) nm (Hhas nm Hin)) as (k & nt & Hfp & Hk & Hnt).
+  rewrite Hfp. subst nm. apply (lists_col_exact p k nt Hwf Hnd Hk).
+Qed.
+
+Theorem to_lists_exact p : wf_b p = true -> chunks p <> [] -> NoDup (map fst (ctype p)) ->
+  m_to_lists p (map fst (ctype p)) = Ok (map (with_missing (lvalidity (abs p))) (lcols (abs p))).
+Proof.
+  intros Hwf Hch Hnd. destruct (wf_b_chunks p Hwf) as (Hne & _).
+  rewrite (to_lists_fields_exact p (map fst (ctype p)) Hwf Hch Hnd).
+  - unfold spec_lists_opt_fields. rewrite (spec_lists_fields_all p Hnd). reflexivity.
+  - destruct (ctype p); [congruence|discriminate].
+  - apply has_name_all.
+Qed.
+
+(* reading a null list as [] gives back the logical lists (abs keeps [] for a missing row) *)
+Lemma olist_with_missing p k : wf_b p = true -> k < length (ctype p) ->
+  map (@olist val) (with_missing (lvalidity (abs p)) (nth k (lcols (abs p)) [])) = nth k (lcols (abs p)) [].
+Proof.
+  intros Hwf Hk. destruct (wf_b_chunks p Hwf) as (_ & Hall).
+  rewrite (abs_col_k p k Hk). unfold abs. cbn [lvalidity].
+  assert (Hc : forall c, In c (chunks p) ->
+            length (svalid c) = length (nth k (chunk_cols c) [])
+            /\ map (@olist val) (with_missing (svalid c) (nth k (chunk_cols c) [])) = nth k (chunk_cols c) []).
+  { intros c Hin. destruct (Hall c Hin) as (Hw & Hlv).
+    pose proof (chunk_nfields _ _ Hw) as Hn.
+    destruct (nth_error (sfields c) k) as [f|] eqn:Ef; [|apply nth_error_None in Ef; lia].
+    assert (Hf : In f (sfields c)) by (eapply nth_error_In; eauto).
+    unfold chunk_cols. rewrite (nth_error_nth _ _ _ (map_nth_error _ _ _ Ef)).
+    unfold wf_chunk_b in Hw. apply andb_true_iff in Hw as [_ Hw].
+    rewrite forallb_forall in Hw. specialize (Hw f Hf).
+    apply wf_larr_b_spec in Hw as (Ho & Hv & _ & _). unfold sc_len in *.
+    unfold field_rows, la_lists. split.
+    - symmetry. apply length_mask_lists; [exact Hv|]. rewrite length_cuts, Ho. lia.
+    - apply olist_with_missing_gen. }
+  unfold with_missing. rewrite map2_concat by (intros c Hin; apply (Hc c Hin)).
+  rewrite concat_map_map, map_map. f_equal.
+  apply map_ext_in. intros c Hin. apply (Hc c Hin).
+Qed.
 
 (* any subset of the fields in any order: the list view of the selected fields *)
 Theorem to_lists_fields_refines p fields : inv_b p = true -> fields <> [] ->
@@ -74,29 +243,27 @@ Theorem to_lists_fields_refines p fields : inv_b p = true -> fields <> [] ->
   res_map (map (map (@olist val))) (m_to_lists p fields) = Ok (spec_lists_fields (abs p) fields).
 Proof.
   intros Hinv Hne Hhas.
-  destruct (inv_b_parts p Hinv) as (Hwf & Hnm & Hch & Hnd & Hok).
-  unfold m_to_lists. rewrite (field_names_ok p Hch).
-  destruct (length fields =? 0) eqn:El.
-  { apply Nat.eqb_eq in El. destruct fields; [congruence|discriminate]. }
-  rewrite Hhas. cbn [negb res_map]. f_equal. rewrite map_map. unfold spec_lists_fields.
-  change (lsch (abs p)) with (ctype p).
+  destruct (inv_b_parts p Hinv) as (Hwf & _ & Hch & Hnd & _).
+  rewrite (to_lists_fields_exact p fields Hwf Hch Hnd Hne Hhas). cbn [res_map]. f_equal.
+  unfold spec_lists_opt_fields, spec_lists_fields. change (lsch (abs p)) with (ctype p). rewrite !map_map.
+  rewrite forallb_forall in Hhas.
   apply map_ext_in. intros nm Hin.
-  rewrite forallb_forall in Hhas. specialize (Hhas nm Hin).
-  destruct (has_name_pos (ctype p) nm Hhas) as (k & nt & Hfp & Hk & Hnt).
-  rewrite Hfp. subst nm. apply (lists_col_refines p k nt Hok Hnd Hk).
+  destruct (has_name_pos (ctype p) nm (Hhas nm Hin)) as (k & nt & Hfp & Hk & Hnt).
+  rewrite Hfp. apply (olist_with_missing p k Hwf (nth_error_lt _ _ _ Hk)).
 Qed.
+
 
 (* the list view: per field, per row the list of that row (nothing for a missing row) *)
 Theorem to_lists_refines p : inv_b p = true ->
   res_map (map (map (@olist val))) (m_to_lists p (map fst (ctype p))) = Ok (lcols (abs p)).
 Proof.
   intros Hinv.
-  destruct (inv_b_parts p Hinv) as (Hwf & Hnm & Hch & Hnd & Hok).
-  rewrite (to_lists_fields_refines p (map fst (ctype p)) Hinv).
-  - rewrite (spec_lists_fields_all p Hnd). reflexivity.
-  - destruct Hok as (Hne & _). destruct (ctype p); [congruence|discriminate].
-  - apply has_name_all.
+  destruct (inv_b_parts p Hinv) as (Hwf & _ & Hch & Hnd & (Hne & _)).
+  rewrite <- (spec_lists_fields_all p Hnd).
+  apply to_lists_fields_refines; [exact Hinv| |apply has_name_all].
+  destruct (ctype p); [congruence|discriminate].
 Qed.
+
 
 (* the element view (iteration, to_numpy, item access): the rows of the logical column *)
 Theorem rows_refines p : inv_b p = true -> m_rows p = rows_of (abs p).
@@ -208,5 +375,8 @@ Qed.
 Print Assumptions to_lists_refines.
 Print Assumptions rows_refines.
 Print Assumptions to_lists_fields_refines.
+Print Assumptions to_lists_fields_exact.
+Print Assumptions to_lists_exact.
+Print Assumptions olist_with_missing.
 Print Assumptions to_flat_fields_refines.
 Print Assumptions init_from_ls_rows.
